@@ -3,7 +3,7 @@ from pathlib import Path
 from typing import Union
 
 from pydantic import BaseModel, Extra, ValidationError
-from pydantic_yaml import parse_yaml_file_as, parse_yaml_raw_as, to_yaml_str
+from pydantic_yaml import parse_yaml_raw_as, to_yaml_str
 
 from .encoder import DynEncoderModelMetaclass
 from .parser import ParserMixin
@@ -75,7 +75,8 @@ class BaseModelPlus(ParserMixin, BaseModel, metaclass=DynEncoderModelMetaclass):
 
     @classmethod
     def parse_file(cls, path: Union[str, Path]):
-        return parse_yaml_file_as(cls, path)
+        # like parse_raw: JSON first (the YAML reader mangles some JSON string escapes)
+        return cls.parse_raw(Path(path).read_bytes())
 
     @classmethod
     def parse_raw(cls, dat: Union[str, bytes], **kwargs):
